@@ -1495,6 +1495,29 @@ def chainexec(F, R):
                 rta = rec[0].get('ta') or []
                 RL = type_list(F.strs[rta[0]['t']]) if rta and isinstance(rta[0], dict) and 't' in rta[0] else None
                 if RL is None or [strip_cvref(x) for x in RL] != [strip_cvref(x) for x in L[1:]]: why.append('the recursion does not continue with the rest of the sequence in order')
+            # the chain stops at a candidate that consumed the event: the test deciding whether the next candidate is tried masks the
+            # first candidate's result with a constant that contains both the handled and the deferred bit (an inner level that
+            # deferred the event has consumed it; HANDLED_TRUE = 1, HANDLED_DEFERRED = 4)
+            if len(row) == 1 and len(L) > 1:
+                res_locals = {v['n'] for i, n in enumerate(f.nodes) if n and n['k'] == 'decl' for v in n['vars'] if v.get('hasinit') and f.nodes[v['init']] is row[0]}
+                masks = []
+                for i, n in enumerate(f.nodes):
+                    if not n or n.get('op') != '&' or n['k'] not in ('call', 'bin'): continue
+                    ops = n['args'] if n['k'] == 'call' else [n['lhs'], n['rhs']]
+                    if len(ops) != 2: continue
+                    def strip(j):
+                        m = f.nodes[j]
+                        while m and m['k'] in ('icast', 'cast', 'paren'): j = m['e']; m = f.nodes[j]
+                        return j, m
+                    (ja, a), (jb, b) = strip(ops[0]), strip(ops[1])
+                    for (jx, x), (jy, y) in (((ja, a), (jb, b)), ((jb, b), (ja, a))):
+                        if x and x['k'] == 'ref' and x.get('dk') == 'local' and x['n'] in res_locals:
+                            masks.append((i, f.eval_const(jy)))
+                R.anchor('chain-stop:' + be)
+                if not masks: why.append('no bit test on the result of the first candidate decides whether the next one is tried')
+                for i, m in masks:
+                    if m is None or (m & 5) != 5:
+                        why.append('the test %s at %s does not treat %s as consumed: the next candidate (a lower-priority or outer row) is tried although this one %s' % (f.expr(i), f.at(i), 'a deferred event' if m is not None and not (m & 4) else 'a taken transition' if m is not None and not (m & 1) else 'the result bits', 'deferred the event' if m is not None and not (m & 4) else 'was taken'))
             order = f.linear_nodes()
             R.ob('C01.chain', not why, {'func': f.q, 'candidates': len(L)})
             if why: R.find('C01.chain', f, 'order', 'conflict chain of %d candidates: %s (table priority is lost)' % (len(L), '; '.join(why)))
